@@ -181,9 +181,18 @@ class LocBuilder:
                 dies.append(d)
                 pending.append(("list", d, a, entries))
         root = Die(TAG["compile_unit"], [Attr(AT["name"], FORM["string"], b"loc.c"), Attr(AT["low_pc"], FORM["addr"], 0x1000)], dies)
-        f = Forest([Unit(root, self.v)])
+        units = [Unit(root, self.v)]
+        if self.r.random() < 0.6:
+            # another unit in front, of the same shape: what is relative to the unit (DIE operands of typed operations)
+            # is then not what it is relative to the section, and the DIE at the same relative offset of the first unit
+            # is a different type
+            pre = Die(TAG["compile_unit"], [Attr(AT["name"], FORM["string"], b"pre.c"), Attr(AT["low_pc"], FORM["addr"], 0x1000)],
+                      [Die(TAG["base_type"], [Attr(AT["name"], FORM["string"], b"not"), Attr(AT["byte_size"], FORM["data1"], 1),
+                                              Attr(AT["encoding"], FORM["data1"], ATE["unsigned_char"])])])
+            units.insert(0, Unit(pre, self.v))
+        f = Forest(units)
         f.layout()
-        toff = self.base_type.offset - f.units[0].offset
+        toff = self.base_type.offset - f.units[-1].offset
         assert toff < 0x7f
         base = 0x1000
         for kind, d, a, entries in pending:
@@ -240,7 +249,7 @@ def expected_values(ops, type_die):
 
 def check_locs(drv, ev, f, secs, toff, cases, builder, rnd, version, recipe):
     data = build_file(f, extra_sections=secs)
-    unit_off = f.units[0].offset
+    unit_off = f.units[-1].offset
     with TempElf(data) as path:
         h = drv.open(path, rnd.random() < 0.3)
         tok = "V%d" % h
